@@ -284,7 +284,15 @@ def load_order(chk):
     q = CLS + '_get_halo_fields_dependencies'
     fn = src.func(CAT, q)
     t = [unparse(s) for s in walk_no_nested(fn) if isinstance(s, ast.stmt)]
-    ok_cap = 'iter_fields += [k]' in t and 'iter_fields = list(fields)' in t and 'for field in iter_fields:' in unparse(fn)
+    # every captured halos[...] key is queued behind the requesting field: one by one (`iter_fields += [k]` / `.append(k)` in a loop
+    # over capturer.keys with nothing skipped) or in bulk (`iter_fields += capturer.keys` / `.extend(capturer.keys)`)
+    bulk = any(x in t for x in ('iter_fields += capturer.keys', 'iter_fields.extend(capturer.keys)', 'iter_fields += list(capturer.keys)'))
+    single = False
+    for lp_ in [n for n in walk_no_nested(fn) if isinstance(n, ast.For) and unparse(n.iter) == 'capturer.keys' and isinstance(n.target, ast.Name)]:
+        kv = lp_.target.id
+        single = any(unparse(b) in (f'iter_fields += [{kv}]', f'iter_fields.append({kv})') for b in lp_.body) and \
+            not any(isinstance(x, (ast.Continue, ast.Break)) for x in walk_no_nested(lp_))
+    ok_cap = (single or bulk) and 'iter_fields = list(fields)' in t and 'for field in iter_fields:' in unparse(fn)
     ok_ord = 'fields_with_deps = list(dict.fromkeys(iter_fields[::-1]))' in t and 'field_deps = list(dict.fromkeys(field_dependencies[::-1]))' in t
     chk.check(ok_cap, 'C02-R7', CAT, q, 'dependencies are appended to the work list after the field that needs them', '',
               'dependency capture no longer appends the halos[...] keys of a loader behind the requesting field', node=fn)
